@@ -616,7 +616,7 @@ class C06(Prop):
         e = c["e"]
         ts = toks(e)
         rng = random.Random(c.get("ws", 0))
-        text = to_text(ts, rng if c.get("ws") is not None else None)
+        text = c.get("lead", "") + to_text(ts, rng if c.get("ws") is not None else None) + c.get("trail", "")
         ob: Dict[str, Any] = {"text": text}
         try:
             t = self._parse(text)
@@ -653,7 +653,10 @@ class C06(Prop):
 
     def impl(self, c):
         if c["kind"] == "word":
-            return self._impl_word(c)
+            try:
+                return self._impl_word(c)
+            except Exception as ex:
+                return f"EXC {type(ex).__name__}"
         try:
             ob = self._observe(c)
         except RecursionError:
@@ -790,6 +793,29 @@ class C06(Prop):
             f = drop_parens(e, rng, 1.0)
             if f != e:
                 cases.append({"kind": "flat", "e": f, "ws": None})
+        # (1b) every literal as the receiver of a select / call / index / message, as an operand of unary minus,
+        # and next to a binary minus (the places where a literal's own characters meet `.` or `-`)
+        for k, t in LITS:
+            lit = ["lit", k, t]
+            for e in (["dot", lit, "f"], ["dotarg", lit, "g", []], ["dotarg", lit, "g", [atom(0)]], ["index", lit, atom(0)],
+                      ["obj", lit, []], ["neg", lit], ["add", "sub", atom(0), lit], ["add", "sub", lit, atom(0)],
+                      ["dot", ["paren", lit], "f"], ["dot", ["dot", lit, "f"], "g"]):
+                cases.append({"kind": "litpos", "e": parenthesize(e), "ws": None})
+        # (1c) aggregates with 2-3 entries, including textually repeated keys / field names / elements
+        for ks in (["a", "b"], ["a", "a"], ["a", "b", "a"], ["a", "a", "a"]):
+            vs = [atom(i + 1) for i in range(len(ks))]
+            cases.append({"kind": "agg", "e": ["map", [[["ident", k], v] for k, v in zip(ks, vs)]], "ws": None})
+            cases.append({"kind": "agg", "e": ["map", [[["lit", "int", str(len(k))], v] for k, v in zip(ks, vs)]], "ws": None})
+            cases.append({"kind": "agg", "e": ["obj", atom(0), [[k, v] for k, v in zip(ks, vs)]], "ws": None})
+            cases.append({"kind": "agg", "e": ["list", [["ident", k] for k in ks]], "ws": None})
+            cases.append({"kind": "agg", "e": ["identarg", "f", [["ident", k] for k in ks]], "ws": None})
+            cases.append({"kind": "agg", "e": ["dotarg", atom(0), "f", [["ident", k] for k in ks]], "ws": None})
+        # (1d) comments and blanks at the very beginning / end of the source, with and without a final line break
+        for i, e in enumerate((atom(0), ["add", "add", atom(0), ["mul", "mul", atom(1), atom(2)]],
+                               ["and", ["not", atom(0)], ["rel", "lt", ["neg", atom(1)], atom(2)]])):
+            for lead, trail in (("", " // end"), ("", " //"), ("", "// end"), ("// lead\n", ""), ("// lead\r\n", "\n// end\n"),
+                                ("\n\n", " // end\n"), ("\t", "\f"), ("", "\n//\n//x")):
+                cases.append({"kind": "edge", "e": e, "ws": None, "lead": lead, "trail": trail})
         # (2) random expressions
         n = 500 if quick else 9000
         for i in range(n):
